@@ -67,7 +67,7 @@ CHECKS["C13"] = {
     "tests": [T("TestC13", 150, 1500)],
     "level": "exploration",
     "technique": "property-based testing (rapid): generated log shapes and payload sizes, snapshot save / fresh-instance load round trip compared field by field",
-    "rule": "rapid draws a store type (eventlog/keyvalue/docstore), 0-2 other writers, up to 7 steps (runs of local writes, remote writes, merges => empty, chain, forked, multi-writer, replicated logs), payload sizes from 0 to 300 KB weighted on the 16-bit entry-JSON boundary (raw 36300-37100) and on large entries that still fit (several exceed one 256 KiB UnixFS chunk), and optionally a replication left in progress (fetches parked by the harness) while SaveSnapshot runs; oracle: a panic in SaveSnapshot or LoadFromSnapshot is a violation, an error from SaveSnapshot is accepted, otherwise a fresh instance on the same disk (peer cut off) must LoadFromSnapshot without error and show the same entry set, Values() order, heads and view (with a saved non-empty queue: a superset containing the saved entries in the same relative order); non-trivial = log holds a replicated entry, or an entry whose JSON exceeds 60000 bytes, or replication was in progress; distinct = SHA-1 of the case JSON",
+    "rule": "rapid draws a store type (eventlog/keyvalue/docstore), 0-2 other writers, up to 7 steps (runs of local writes, remote writes, merges => empty, chain, forked, multi-writer, replicated logs), payload sizes from 0 to 300 KB weighted on the 16-bit entry-JSON boundary (raw 36300-37100) and on large entries that still fit (several exceed one 256 KiB UnixFS chunk), and optionally a replication left in progress (fetches parked by the harness) while SaveSnapshot runs; oracle: a panic in SaveSnapshot or LoadFromSnapshot is a violation, an error from SaveSnapshot is accepted, otherwise a fresh instance on the same disk (peer cut off) must LoadFromSnapshot without error and show the same entry set, Values() order, heads and view (with a saved non-empty queue: a superset containing the saved entries in the same relative order); In one case in three a goroutine keeps writing small local entries while SaveSnapshot runs (after 20 extra writes, so that the save takes a while): the snapshot must then load on the fresh instance to a consistent state between the one before and the one after the save - everything held before the save, nothing that was never written, Values() in (time,id) order, view == replay of the loaded log. non-trivial = log holds a replicated entry, or an entry whose JSON exceeds 60000 bytes, or replication was in progress; distinct = SHA-1 of the case JSON",
     "level_text": "Generated round trips over real kubo UnixFS; no exhaustiveness claimed.",
     "level_note": "Trusted: kubo UnixFS add/get, go-ipfs-log NewFromJSON. The snapshot is reloaded by a fresh OrbitDB instance on the same recorded datastore, without Load.",
     "design_ref": "5/C13",
@@ -78,7 +78,7 @@ CHECKS["C17"] = {
     "tests": [T("TestC17Grid", 1, 1, qshards=4, tshards=4), T("TestC17", 60, 1200)],
     "level": "fault_enumeration",
     "technique": "schedule enumeration through the verif hooks between log append and head persistence and between head persistence and the view update (all release orders for k<=4 at the first point, both points for k<=3) + property-based testing (rapid) of larger bursts; oracle = acknowledged entries distinct, all listed, all recovered after restart+Load",
-    "rule": "k goroutines each issue one write on the same store; the hook point store.addop.appended parks each writer after its append, the controller releases parked writers by a priority vector, waiting for each released call to return (so the persist order is the release order). With the post option the writers also park at store.addop.persisted (after the head is on disk, before the view update and the return) with a second priority vector and a drawn bit saying which class goes first, so that a writer sits in the later half of its call while others append, persist and return. TestC17Grid enumerates every priority permutation for k=2,3,4 on eventlog and keyvalue stores, and for k=2,3 every pair of permutations with the post option (144 cases); TestC17 draws k in 2..8, 0-3 sequential pre-writes, 1-2 bursts, any store type, random priority permutations and the post option half of the time. Oracle: every successful call returned a distinct entry, all are in the log and in Values(), and after stopping the instance, restarting on the same disk and Load(-1) all are still listed. Writers held back by a lock (as the repair adds) make part of the order infeasible; this is counted (label), never reported. non-trivial = a writer was parked between append and persist while another write call was in flight; distinct = SHA-1 of the case JSON",
+    "rule": "k goroutines each issue one write on the same store; the hook point store.addop.appended parks each writer after its append, the controller releases parked writers by a priority vector, waiting for each released call to return (so the persist order is the release order). With the post option the writers also park at store.addop.persisted (after the head is on disk, before the view update and the return) with a second priority vector and a drawn bit saying which class goes first, so that a writer sits in the later half of its call while others append, persist and return. TestC17Grid enumerates every priority permutation for k=2,3,4 on eventlog and keyvalue stores, and for k=2,3 every pair of permutations with the post option (144 cases); TestC17 draws k in 2..8, 0-3 sequential pre-writes, 1-2 bursts, any store type, random priority permutations and the post option half of the time. Oracle: every successful call returned a distinct entry, all are in the log and in Values(), the view (listing / map / documents) equals the last-writer-wins replay of the log the store holds, and after stopping the instance, restarting on the same disk and Load(-1) all are still listed and the view is again the replay of the log. Writers held back by a lock (as the repair adds) make part of the order infeasible; this is counted (label), never reported. non-trivial = a writer was parked between append and persist while another write call was in flight; distinct = SHA-1 of the case JSON",
     "level_text": "All k! release orders at the append/persist point for k<=4 (and all pairs of orders at both points for k<=3) are enumerated in both tiers; larger k sampled. Interleavings at other instructions are reached only by chance.",
     "level_note": "The harness owns the schedule points between Append and the _localHeads Put and between that Put and updateIndex; trusted: go-ipfs-log's Append lock.",
     "design_ref": "5/C17",
@@ -89,7 +89,7 @@ CHECKS["C16"] = {
     "tests": [T("TestC16Emitter", 1500, 20000), T("TestC16Store", 120, 1500), T("TestC16Strict", 120, 1500), T("TestC16GatedIndex", 120, 1500), T("TestC16Refused", 150, 2000)],
     "level": "exploration",
     "technique": "property-based testing (rapid) with a harness-owned schedule point in the legacy emitter's drainer; sequence oracle (received == emitted, in order, once) and in-handler state queries on store events",
-    "rule": "TestC16Emitter: rapid draws up to 14 steps of emit m (1-4 or 14-40 events) / read k / hold (park the drainer at the hook between taking an event off the overflow queue and sending it) / release on a bare events.EventEmitter; at the end everything is released and the subscriber must have received exactly 0..N-1 in order; non-trivial = the overflow queue was in use (>17 undelivered events) AND the drainer was held at least once. TestC16Store: rapid draws a store (eventlog/keyvalue), 0-2 other writers, up to 10 steps of local write runs (1-4 or 15-30), remote writes and merges; an event-bus subscriber and a legacy-channel subscriber that stalls for a drawn number of steps and then reads slowly both query the store from inside their handler (OpLog().Get(hash), listing contains it / Get(key) is the announced value or a later one); oracle: exactly one write event per successful write in write order, one replicated event per merged batch (hook count), every replicated entry announced, state never behind the event, and the legacy subscriber sees the same sequence as the bus; non-trivial = >16 writes and at least one replication. TestC16Strict (same generator): the subscriber's channel has NO buffer and the harness refuses to receive until the view reflects the write / the merged batch (batches are reported by the replicator hook); the bus delivers synchronously, so a store that emits before updating its state parks inside Emit with the state lacking the entry - a state-based, non-racy verdict; then the event must arrive and carry exactly that entry / batch; non-trivial = at least one local write and one merged batch. TestC16GatedIndex: a harness-owned store type (plain BaseStore with an index whose UpdateIndex can be held) keeps one writer inside the index update while 0-4 further writers and optionally a replication run; no write/replicated event may be received for an entry the index does not hold, every acknowledged write reaches the index, one write event per write; non-trivial = another writer or a merge overlapped the held update. TestC16Refused: the hostile-delivery scenarios of C03 (a non-writer's entries delivered as heads by Sync/topic/direct channel, or as the ancestor or skip reference of an authorised colluder's head, chains of 1-3) with a subscriber that, at the moment it receives each replicated event, looks up every announced entry in the store's log: an event announcing an entry the store refused (or does not hold yet) is a violation; non-trivial = the victim fetched the hostile blocks and at least one replicated event was seen; distinct = SHA-1 of the case JSON",
+    "rule": "TestC16Emitter: rapid draws up to 14 steps of emit m (1-4 or 14-40 events) / read k / hold (park the drainer at the hook between taking an event off the overflow queue and sending it) / release on a bare events.EventEmitter, one case in four ending with the pattern fill (emit until exactly 17+b events are unread: channel full, one in the drainer's hand, b=1-3 queued) / hold / read 1-5 / emit 1-3 / release; at the end everything is released and the subscriber must have received exactly 0..N-1 in order; non-trivial = the overflow queue was in use (>17 undelivered events) AND the drainer was held at least once. TestC16Store: rapid draws a store (eventlog/keyvalue), 0-2 other writers, up to 10 steps of local write runs (1-4 or 15-30), remote writes and merges; an event-bus subscriber and a legacy-channel subscriber that stalls for a drawn number of steps and then reads slowly both query the store from inside their handler (OpLog().Get(hash), listing contains it / Get(key) is the announced value or a later one); oracle: exactly one write event per successful write in write order, one replicated event per merged batch (hook count), every replicated entry announced, state never behind the event, and the legacy subscriber sees the same sequence as the bus; non-trivial = >16 writes and at least one replication. TestC16Strict (same generator): the subscriber's channel has NO buffer and the harness refuses to receive until the view reflects the write / the merged batch (batches are reported by the replicator hook); the bus delivers synchronously, so a store that emits before updating its state parks inside Emit with the state lacking the entry - a state-based, non-racy verdict; then the event must arrive and carry exactly that entry / batch; non-trivial = at least one local write and one merged batch. TestC16GatedIndex: a harness-owned store type (plain BaseStore with an index whose UpdateIndex can be held) keeps one writer inside the index update while 0-4 further writers and optionally a replication run; no write/replicated event may be received for an entry the index does not hold, every acknowledged write reaches the index, one write event per write; non-trivial = another writer or a merge overlapped the held update. TestC16Refused: the hostile-delivery scenarios of C03 (a non-writer's entries delivered as heads by Sync/topic/direct channel, or as the ancestor or skip reference of an authorised colluder's head, chains of 1-3) with a subscriber that, at the moment it receives each replicated event, looks up every announced entry in the store's log: an event announcing an entry the store refused (or does not hold yet) is a violation; non-trivial = the victim fetched the hostile blocks and at least one replicated event was seen; distinct = SHA-1 of the case JSON",
     "level_text": "Generated schedules/histories; the one harness-owned interleaving point is the drainer hook. Other interleavings are reached by chance only.",
     "level_note": "Loss is judged after a 20 s wait with everything released (a wait bound, the only place a clock ends a positive claim without a state-based rest detector: the bare emitter has no other observable). A failure must reproduce in the driver's re-execution to be reported.",
     "design_ref": "5/C16",
@@ -111,7 +111,7 @@ CHECKS["C01"] = {
     "tests": [T("TestC01", 120, 2500, ttimeout=3000)],
     "level": "exploration",
     "technique": "property-based testing (rapid): generated multi-writer histories delivered to 2-3 observers by different routes/orders/batchings/duplications with harness-chosen fetch completion order; differential oracle between replicas plus (time,id) order, head and LWW-replay models",
-    "rule": "rapid draws a store type, 1-4 authors (replication off, manual merges => chains, forks, merges; up to 16 (quick) / 40 (thorough) steps; writes are puts, deletes and - on document stores - batch puts) and 2-3 observers (replication on, mutually disconnected until the end), each with its own plan of up to 7 deliveries: manual Sync / injected topic message / injected direct-channel payload (each announcing 1-4 arbitrary entries as heads, repeated 0-2 times, awaited or not), restart+Load(-1), snapshot save + fresh instance + LoadFromSnapshot, own local write; optionally every block fetch of the observer is parked and released in a drawn order. Final phase: observers are reconnected (head exchange on connect) and every replica is announced every replica's heads until all hold the union. Oracle: every replica holds the union, Values() == entries sorted by (time,id), heads == model heads, and the view (listing / map / documents) is identical on all replicas and equal to the LWW replay; non-trivial = the history has a fork AND two observers' plans differ; distinct = SHA-1 of the case JSON",
+    "rule": "rapid draws a store type, 1-4 authors (replication off, manual merges => chains, forks, merges; up to 16 (quick) / 40 (thorough) steps; writes are puts, deletes and - on document stores - batch puts) and 2-3 observers (replication on, mutually disconnected until the end), each with its own plan of up to 7 deliveries: manual Sync / injected topic message / injected direct-channel payload (each announcing 1-4 arbitrary entries as heads, repeated 0-2 times, awaited or not), restart+Load(-1), snapshot save + fresh instance + LoadFromSnapshot, own local write, LoadMoreFrom with arbitrary entries, restart with a bounded Load(n) after the replica has fetched everything the authors hold (the older part then reaches it only in the final phase, when every entry is announced once the heads have settled); optionally every block fetch of the observer is parked and released in a drawn order. Final phase: observers are reconnected (head exchange on connect) and every replica is announced every replica's heads until all hold the union. Oracle: every replica holds the union, Values() == entries sorted by (time,id), heads == model heads, and the view (listing / map / documents) is identical on all replicas and equal to the LWW replay; non-trivial = the history has a fork AND two observers' plans differ; distinct = SHA-1 of the case JSON",
     "level_text": "Generated histories and delivery plans; no exhaustiveness claimed.",
     "level_note": "The uniqueness assumption on (time, writer) pairs holds by construction (each identity writes through one live, loaded store). A shortfall in delivery is counted as inconclusive here (C02/C05 decide it).",
     "design_ref": "5/C01",
@@ -122,7 +122,7 @@ CHECKS["C04"] = {
     "tests": [T("TestC04", 300, 4000)],
     "level": "exploration",
     "technique": "property-based testing (rapid): enumerated single-field mutations of valid entries (and sibling-database entries) x delivery form x route, with an independent badness oracle (recomputed content address, signature verification, log id) and a canary to prove the route processed the input",
-    "rule": "rapid draws a store type, 1-2 authors with a short honest history, whether the victim already holds it, a base entry (an honest entry or a fresh valid one nobody holds), one of 23 field mutations (payload, clock time/id, next add/drop, refs, key other/garbage, signature flip/empty, five identity fields, log id replaced / re-spelled with a trailing slash, without the /orbitdb/ prefix, with a ./ segment or in upper case, v, claimed hash, sibling-database entry), the delivery form (A head with the claimed hash kept, B head with the hash recomputed and the block stored on the attacker's node, C stored block reachable through next from a valid head signed by a colluding authorised writer, D reachable through refs of such a head, E reachable through next of a carrier head that passes the announcement pre-check but is refused at join) and the route (manual Sync, injected topic message, injected direct-channel payload). bad(e) := claimed address != address of the content, or signature does not verify against key and content, or log id != this database - computed with the dependency's encoder and verifier. After an honest canary entry sent by the same route is visible and the replica rests: if bad, neither address is in the log, Values() or heads, no honest address holds foreign content, everything held before is still there, Values() == (time,id) order and the view == LWW replay of the honest entries held. Mutations that leave the entry valid (identity block with the hash recomputed: not covered by the signature) are counted, not asserted (C03's domain). non-trivial = bad and the victim actually fetched blocks for it; distinct = SHA-1 of the case JSON",
+    "rule": "rapid draws a store type, 1-2 authors with a short honest history, whether the victim already holds it, a base entry (an honest entry or a fresh valid one nobody holds), one of 23 field mutations (payload, clock time/id, next add/drop, refs, key other/garbage, signature flip/empty, five identity fields, log id replaced / re-spelled with a trailing slash, without the /orbitdb/ prefix, with a ./ segment or in upper case, v, claimed hash, sibling-database entry), the delivery form (A head with the claimed hash kept, B head with the hash recomputed and the block stored on the attacker's node, C stored block reachable through next from a valid head signed by a colluding authorised writer, D reachable through refs of such a head, E reachable through next of a carrier head that passes the announcement pre-check but is refused at join) the route (manual Sync, injected topic message, injected direct-channel payload, LoadMoreFrom with the bare address, the replication queue recorded with a snapshot that is then loaded; on the two address-only routes form A is replaced by B) and whether the replica restarts afterwards (instance closed, a new one on the same disk, Load(-1): it must load, hold everything it held, and still be clean). bad(e) := claimed address != address of the content, or signature does not verify against key and content, or log id != this database - computed with the dependency's encoder and verifier. After an honest canary entry sent by the same route is visible and the replica rests: if bad, neither address is in the log, Values() or heads, no honest address holds foreign content, everything held before is still there, Values() == (time,id) order and the view == LWW replay of the honest entries held. Mutations that leave the entry valid (identity block with the hash recomputed: not covered by the signature) are counted, not asserted (C03's domain). non-trivial = bad and the victim actually fetched blocks for it; distinct = SHA-1 of the case JSON",
     "level_text": "Generated cases with every field/form combination hit in the quick tier (see labels); no exhaustiveness over histories.",
     "level_note": "Links to blocks that nobody holds are not generated: an unfetchable link stalls any replicator until the block appears, honest author or not; the properties assume reachable blocks. Trusted: go-ipfs-log encoder and Verify for the badness oracle.",
     "design_ref": "5/C04",
@@ -133,7 +133,7 @@ CHECKS["C10"] = {
     "tests": [T("TestC10", 150, 3000)],
     "level": "exploration",
     "technique": "property-based testing (rapid): generated announcements mixing valid heads with rejected ones at drawn positions, drawn fetch-completion order, then honest re-announcements; wedge oracle (system at rest, valid entry still missing)",
-    "rule": "rapid draws a store type, 1-3 authors with an honest history, 1-3 announcements (routes: manual Sync / topic message / direct payload) of 1-4 items each mixing valid heads (any honest entry) with rejected heads of the kinds the code rejects (entry by an identity outside the write list, entry whose signature no longer verifies with the hash recomputed, entry of another database, honest address with foreign content), optionally with every block fetch of the victim parked and released in a drawn order; then the authors' true heads are announced honestly twice and once more after a new write. Oracle: the victim ends up holding every honest entry (reported only if the system is at rest by hook counters and the entry is still missing), no rejected entry is in its log, Values(), heads or view, and order/view match the models. What the mixed announcement itself achieved is not asserted. non-trivial = a rejected head preceded a valid one inside one announcement AND a rejected block was actually fetched; distinct = SHA-1 of the case JSON",
+    "rule": "rapid draws a store type, 1-3 authors with an honest history, 1-3 announcements (routes: manual Sync / topic message / direct payload) of 1-4 items each mixing valid heads (any honest entry) with rejected heads of the kinds the code rejects (entry by an identity outside the write list, entry whose signature no longer verifies with the hash recomputed, entry of another database, honest address with foreign content), optionally with every block fetch of the victim parked and released in a drawn order; then the authors' true heads are announced honestly twice and once more after a new write. Oracle: the victim ends up holding every honest entry (reported only if the system is at rest by hook counters and the entry is still missing), no rejected entry is in its log, Values(), heads or view, and order/view match the models. What the mixed announcement itself achieved is not asserted. Announcements travel by manual Sync, topic, direct channel or LoadMoreFrom; in half of the cases the victim finally restarts and reloads (it must load, hold what it held and still be clean). non-trivial = a rejected head preceded a valid one inside one announcement AND a rejected block was actually fetched; distinct = SHA-1 of the case JSON",
     "level_text": "Generated fault sequences with harness-owned fetch completion order; no exhaustiveness claimed.",
     "level_note": "Rejected kinds are the ones the code rejects by design; forged-author entries are C03's subject. Links to blocks nobody holds are not generated.",
     "design_ref": "5/C10",
@@ -144,7 +144,7 @@ CHECKS["C03"] = {
     "tests": [T("TestC03", 300, 4000)],
     "level": "exploration",
     "technique": "property-based testing (rapid): generated write lists x hostile author kinds x delivery routes (incl. hidden behind a colluding writer's entry) with a canary proving the route processed the input; invariant: no hostile address in log/Values/heads/view, refused local write changes nothing",
-    "rule": "rapid draws a store type, a write list (explicit subset, wildcard, none => creator only, creator explicit), 1-2 authors with a short honest history, whether the victim already holds it, whether the victim first opened a wildcard sibling database with the same options value, the access controller (the default ipfs one, list recorded in the manifest; one case in four the bundled in-memory 'simple' one, list passed by every opener), a hostile kind (honest entry by an identity outside the list; the same written for a database of the non-writer's own; writer's id copied onto the attacker's identity; writer's whole identity block copied with the attacker's key and signature; writer's identity block and key field with the attacker's signature; local write call on the non-writer's own replica), a hostile chain length 1-3, a route (manual Sync, topic message, direct payload, ancestor referenced through next, or through refs, by a valid entry signed by a colluding authorised writer) and 0-2 honest writes afterwards. An entry counts as the attacker's when it carries/is signed with the attacker's key. After an honest canary sent by the same route is visible and the replica rests: no hostile address is in the victim's log, Values(), heads or view and order/view match the models; with the wildcard list only the unverifiable kind is asserted. Local write: every write call returns an error and log length, heads, view, cached _localHeads, write events, published messages and the other replica are unchanged. The two forged-author kinds are a recorded OPEN finding: when listed in known_findings.txt they are excluded by construction (counted) and two witness replays must still classify as known. non-trivial = the victim fetched blocks for the hostile input (or the refused write hit a non-empty store); distinct = SHA-1 of the case JSON",
+    "rule": "rapid draws a store type, a write list (explicit subset, wildcard, none => creator only, creator explicit), 1-2 authors with a short honest history, whether the victim already holds it, whether the victim first opened a wildcard sibling database with the same options value, the access controller (the default ipfs one, list recorded in the manifest; one case in four the bundled in-memory 'simple' one, list passed by every opener), a hostile kind (honest entry by an identity outside the list; the same written for a database of the non-writer's own; writer's id copied onto the attacker's identity; writer's whole identity block copied with the attacker's key and signature; writer's identity block and key field with the attacker's signature; local write call on the non-writer's own replica), a hostile chain length 1-3, whether the attacker first had a legitimate entry of its own accepted by the victim in that wildcard sibling, whether the victim restarts and reloads afterwards, a route (manual Sync, topic message, direct payload, LoadMoreFrom with the bare address, the replication queue recorded with a snapshot that is then loaded, ancestor referenced through next, or through refs, by a valid entry signed by a colluding authorised writer) and 0-2 honest writes afterwards. An entry counts as the attacker's when it carries/is signed with the attacker's key. After an honest canary sent by the same route is visible and the replica rests: no hostile address is in the victim's log, Values(), heads or view and order/view match the models; with the wildcard list only the unverifiable kind is asserted. Local write: every write call returns an error and log length, heads, view, cached _localHeads, write events, published messages and the other replica are unchanged. The two forged-author kinds are a recorded OPEN finding: when listed in known_findings.txt they are excluded by construction (counted) and two witness replays must still classify as known. non-trivial = the victim fetched blocks for the hostile input (or the refused write hit a non-empty store); distinct = SHA-1 of the case JSON",
     "level_text": "Generated cases; no exhaustiveness claimed.",
     "level_note": "Access controller type ipfs (the default); the simple controller is only reachable through options that bypass the manifest and is not generated. Trusted: the dependency's signature verification.",
     "design_ref": "5/C03",
@@ -167,7 +167,7 @@ CHECKS["C12"] = {
     "fuzz": [("FuzzC12Message", "120s"), ("FuzzC12Frame", "90s")],
     "level": "exploration",
     "technique": "property-based testing (rapid): grammar- and mutation-generated messages on the topic and the direct channel, generated length-prefixed frames on a libp2p stream; thorough tier adds coverage-guided native Go fuzzing of both; oracle: process survives (crash = driver re-executes the journaled case), later valid message still handled, state only holds honest entries",
-    "rule": "TestC12Message: a real head announcement (1-3 real entries) is transformed by 1-3 drawn mutations - delete/set one of 24 JSON paths (address, heads, a head, identity and its fields, clock, hash, key, sig, next, refs, payload, id, v) to one of 23 hostile values (null, {}, [], [null], [{}], ill-typed scalars, huge numbers, deep nesting, partial identities...), duplicate a member, replace everything by one of 22 raw constants, flip a byte, truncate, splice a token - and injected 1-2 times on the victim's topic or direct channel; then an honest canary on the same route must become visible and the victim must hold only honest entries with honest content, lose nothing it held, and match the order/view models. TestC12Frame: 1-4 frames written on a /go-orbit-db/direct-channel stream between two mocknet hosts, prefix in {exact, zero, short, long, limit+1, 3x limit, 2^63, 2^64-1, ten 0xff bytes, none, 0-12 raw bytes}, body sizes around the varint boundaries and up to 70000, optionally cut short; then a valid Send must be delivered exactly once, intact, attributed to the sender, nothing over the limit is delivered, complete valid frames are delivered intact in order, the sender receives nothing. A panic in a library goroutine kills the test process: the driver re-executes the journaled case and reports it. non-trivial = the message decodes as a MessageExchangeHeads / the frame got past the length prefix; distinct = SHA-1 of the case JSON. Thorough: native fuzzing (FuzzC12Message seeded with the constants and a real message, FuzzC12Frame seeded with boundary prefixes) for a wall-clock budget; a budget hit is not a verdict",
+    "rule": "TestC12Message: a real head announcement (1-3 real entries) is transformed by 1-3 drawn mutations - delete/set one of 24 JSON paths (address, heads, a head, identity and its fields, clock, hash, key, sig, next, refs, payload, id, v) to one of 23 hostile values (null, {}, [], [null], [{}], ill-typed scalars, huge numbers, deep nesting, partial identities...), duplicate a member, replace everything by one of 22 raw constants, flip a byte, truncate, splice a token - and injected 1-2 times on the victim's topic or direct channel; then the untouched original of the message, sent by the same route, must be handled (the entries it announces become visible), an honest canary on the same route must become visible and the victim must hold only honest entries with honest content, lose nothing it held, and match the order/view models. TestC12Frame: 1-4 frames written on a /go-orbit-db/direct-channel stream between two mocknet hosts, prefix in {exact, zero, short, long, limit+1, 3x limit, 2^63, 2^64-1, ten 0xff bytes, none, 0-12 raw bytes}, body sizes around the varint boundaries and up to 70000, optionally cut short; then a valid Send must be delivered exactly once, intact, attributed to the sender, nothing over the limit is delivered, complete valid frames are delivered intact in order, the sender receives nothing. A panic in a library goroutine kills the test process: the driver re-executes the journaled case and reports it. non-trivial = the message decodes as a MessageExchangeHeads / the frame got past the length prefix; distinct = SHA-1 of the case JSON. Thorough: native fuzzing (FuzzC12Message seeded with the constants and a real message, FuzzC12Frame seeded with boundary prefixes) for a wall-clock budget; a budget hit is not a verdict",
     "level_text": "Generated and fuzzed inputs; absence of crashes is only shown for what was generated.",
     "level_note": "The topic/direct payloads are injected at the transport interface (the bytes a remote peer controls); frames go through real libp2p mocknet streams and the real stream handler.",
     "design_ref": "5/C12",
@@ -179,7 +179,7 @@ CHECKS["C14"] = {
     "fuzz": [("FuzzC14Name", "90s")],
     "level": "exploration",
     "technique": "property-based testing (rapid): name grammar incl. names derived from earlier addresses of the same case x type x write list on three peers; determinism/injectivity table, parse round trip, manifest read-back, create/overwrite/open/local-only outcomes",
-    "rule": "rapid draws 2-4 (name, type, write list) tuples per case; names come from a pool of 30 (ASCII, unicode, spaces, nested, empty, '.', '..', 'a/../b', leading/trailing/double slashes, and names built from the first tuple's address root: '<root>', '<root>/x', '/orbitdb/<root>/x', '../<root>/x', 'y/../../<root>/z', ...) or a random string over [a-zA-Z0-9._/ -], or a composition of 1-6 segments from {'..', '.', '', a, x, db, orbitdb, <root>} with zero, one or two leading slashes; write list in {none, *, [p0], [p0,p1], [p1,p2], [p0,p1,p0], [p2,p1,p2,p0,p1]} (ids may be listed twice); the second peer opens every database of the case with one shared options value, as callers do. For every tuple: DetermineAddress twice on one peer and (explicit list) on a second peer must agree (same address, or refused on both); the printed address parses back to the same root, path and text; the root block is a manifest recording exactly this name and type; within the case equal inputs (name, type, effective write list) give equal addresses and different inputs different ones; Create returns a store at that address and of that type, a second Create is refused, with Overwrite accepted; Open on another peer gives the same type and GetAuthorizedByRole(write) == the list given (or the creator's id); a local-only Open is refused on a peer that never saw the database and accepted on the creator; on a third peer the typed helper (Log / KeyValue / Docs) of the recorded type opens the address as that type and a helper of another type is refused; a typed helper given a fresh name creates the database at the address DetermineAddress computes for it. A refusal by DetermineAddress/Create is accepted for any name. non-trivial = an accepted name containing a '.'/'..' segment or embedding an earlier root; distinct = SHA-1 of the case JSON. Thorough: native fuzzing of the name string (FuzzC14Name, seeded with the pool) for a wall-clock budget",
+    "rule": "rapid draws 2-4 (name, type, write list) tuples per case; names come from a pool of 30 (ASCII, unicode, spaces, nested, empty, '.', '..', 'a/../b', leading/trailing/double slashes, and names built from the first tuple's address root: '<root>', '<root>/x', '/orbitdb/<root>/x', '../<root>/x', 'y/../../<root>/z', ...) or a random string over [a-zA-Z0-9._/ -], or a composition of 1-6 segments from {'..', '.', '', a, x, db, orbitdb, <root>} with zero, one or two leading slashes; write list in {none, *, [p0], [p0,p1], [p1,p2], [p0,p1,p0], [p2,p1,p2,p0,p1]} (ids may be listed twice); the second peer opens every database of the case with one shared options value, as callers do. For every tuple: DetermineAddress twice on one peer and (explicit list) on a second peer must agree (same address, or refused on both); the printed address parses back to the same root, path and text; the root block is a manifest recording exactly this name and type; within the case equal inputs (name, type, effective write list) give equal addresses and different inputs different ones; Create returns a store at that address and of that type, a second Create is refused, with Overwrite accepted; Open on another peer gives the same type and GetAuthorizedByRole(write) == the list given (or the creator's id); a local-only Open is refused on a peer that never saw the database - also when combined with create-if-missing, and through the typed helpers, which always set it - and accepted on the creator; on a third peer the typed helper (Log / KeyValue / Docs) of the recorded type opens the address as that type and a helper of another type is refused; a typed helper given a fresh name creates the database at the address DetermineAddress computes for it. A refusal by DetermineAddress/Create is accepted for any name. non-trivial = an accepted name containing a '.'/'..' segment or embedding an earlier root; distinct = SHA-1 of the case JSON. Thorough: native fuzzing of the name string (FuzzC14Name, seeded with the pool) for a wall-clock budget",
     "level_text": "Generated names/configurations; injectivity is checked within each case, not globally.",
     "level_note": "Persistence is the harness's recorded datastore behind cache.Interface (same keys as cacheleveldown). Access controller type ipfs.",
     "design_ref": "5/C14",
@@ -190,7 +190,7 @@ CHECKS["C09"] = {
     "tests": [T("TestC09", 100, 2000)],
     "level": "exploration",
     "technique": "property-based testing (rapid): generated sets of 2-4 databases on one instance (shared default bus) with interleaved writes, loads and replications; frame-condition oracle (everything about the untouched databases is unchanged) plus transport-log and event-bus invariants",
-    "rule": "rapid draws 2-4 databases (type, write list) opened on one instance with the default shared event bus (all through one shared options value, as callers commonly do), on a second replicating instance (so every topic has a peer) and on an author instance, and 2-9 actions write(db, n) / load(db) / replicate(db, n: entries authored elsewhere and synced in) / racewrite(db: the write's announcement is held in a slow topic peer lookup while another database is written, then released). Around every action, at rest: (b) every other database of the instance has the same entries, view, replication progress/max and cached _localHeads/_remoteHeads bytes as before; (a) every message recorded by the simulated transport names the topic's own database, the instance only sends messages for the touched database, and every head carried has that database's log id; (c) every store event seen on the instance's bus (write, replicate, replicate-progress, replicated, load, load-progress, ready) has the touched database's address and carries only its entries. non-trivial = an untouched database was non-empty and had a topic peer; distinct = SHA-1 of the case JSON",
+    "rule": "rapid draws 2-4 databases (type, write list) opened on one instance with the default shared event bus (all through one shared options value, as callers commonly do), on a second replicating instance (so every topic has a peer) and on an author instance, and 2-9 actions write(db, n) / load(db) / replicate(db, n: entries authored elsewhere and synced in) / racewrite(db: the write's announcement is held in a slow topic peer lookup while another database is written, then released) / exchange2(db, db': a returning peer's head-exchange messages for two databases are delivered on the direct channel back to back, the second while the first database is still fetching; both databases must end up holding what was handed over). Around every action, at rest: (b) every other database of the instance has the same entries, view, replication progress/max and cached _localHeads/_remoteHeads bytes as before; (a) every message recorded by the simulated transport names the topic's own database, the instance only sends messages for the touched database, and every head carried has that database's log id; (c) every store event seen on the instance's bus (write, replicate, replicate-progress, replicated, load, load-progress, ready) has the touched database's address and carries only its entries. non-trivial = an untouched database was non-empty and had a topic peer; distinct = SHA-1 of the case JSON",
     "level_text": "Generated configurations and histories; no exhaustiveness claimed.",
     "level_note": "Quiescence is decided per store from hook counters; the second instance's echo traffic for the touched database is allowed.",
     "design_ref": "5/C09",
@@ -212,7 +212,7 @@ CHECKS["C05"] = {
     "tests": [T("TestC05", 80, 1200), T("TestC05Dir", 80, 1200)],
     "level": "fault_enumeration",
     "technique": "crash-point enumeration: every prefix of the journaled persistence effects (block writes incl. fetched blocks, cache puts/deletes) of generated histories (rapid) is materialised as a fresh offline peer and recovered; oracle = acknowledged subset, written superset, ancestry closure, model replay, identity, writability",
-    "rule": "rapid draws a store type, 0-2 other writers and up to 8 (quick) / 12 (thorough) steps on the replica under test: runs of local writes, remote writes, merges (manual Sync of another writer's heads; one case in six ends with two remote writers' concurrent branches merged in separate rounds and nothing local afterwards), clean restarts (instance closed, recreated on the same recorded disk, Load(-1): everything acknowledged so far must be there, identity unchanged). Every persistence effect of the replica is journaled in issue order with acknowledgement marks (write call returned; replicated event observed). Then every prefix of the journal after database creation (all of them up to 40 effects, otherwise first, last, the last 12 and 12 drawn ones) is materialised: a fresh offline kubo node holding exactly those blocks and a disk holding exactly those datastore writes; a new instance with the same peer key opens the database and Load(-1)s it. Oracle per crash point: identity unchanged; recovered entries include everything acknowledged before the cut, are all entries that were really written, are closed under next; Values() == (time,id) order; view == LWW replay of the recovered entries; a new write succeeds. non-trivial = a cut falls between an entry's block write and the head put, or the history contains a replicated batch; TestC05Dir (the statement's clean cycles on real directories): the instance under test lives on a real directory with the library's own leveldb cache and on-disk keystore and holds one or two databases of the same name (differing by type / write list); rapid draws 2-9 steps of local write runs, runs authored elsewhere and replicated in by Sync, close+reopen of one database while the instance stays up, and full restarts (instance closed, a new one on the same directory, every database reopened and Load(-1)ed; the last step is always a restart). After every reopen: the instance identity is the same, every database lists exactly the entries acknowledged to it (none missing, none of its sibling's), shows the same state as before the close, accepts a new write and signs it with the same identity; non-trivial (Dir) = at least two restarts and a replicated batch; distinct = SHA-1 of the case JSON",
+    "rule": "rapid draws a store type, 0-2 other writers and up to 8 (quick) / 12 (thorough) steps on the replica under test: runs of local writes, remote writes, merges (manual Sync of another writer's heads; one case in six ends with two remote writers' concurrent branches merged in separate rounds and nothing local afterwards), clean restarts (instance closed, recreated on the same recorded disk, Load(-1): everything acknowledged so far must be there, identity unchanged). Every persistence effect of the replica is journaled in issue order with acknowledgement marks (write call returned; replicated event emitted - the store under test is given a harness-owned event bus whose Emit places the mark synchronously, so the mark sits exactly between the effects issued before and after the emission). Then every prefix of the journal after database creation (all of them up to 40 effects, otherwise first, last, the last 12 and 12 drawn ones) is materialised: a fresh offline kubo node holding exactly those blocks and a disk holding exactly those datastore writes; a new instance with the same peer key opens the database and Load(-1)s it. Oracle per crash point: identity unchanged; recovered entries include everything acknowledged before the cut, are all entries that were really written, are closed under next; Values() == (time,id) order; view == LWW replay of the recovered entries; a new write succeeds. non-trivial = a cut falls between an entry's block write and the head put, or the history contains a replicated batch; TestC05Dir (the statement's clean cycles on real directories): the instance under test lives on a real directory with the library's own leveldb cache and on-disk keystore and holds one or two databases of the same name (differing by type / write list); rapid draws 2-9 steps of local write runs, runs authored elsewhere and replicated in by Sync, close+reopen of one database while the instance stays up, and full restarts (instance closed, a new one on the same directory, every database reopened and Load(-1)ed; the last step is always a restart). After every reopen: the instance identity is the same, every database lists exactly the entries acknowledged to it (none missing, none of its sibling's), shows the same state as before the close, accepts a new write and signs it with the same identity; non-trivial (Dir) = at least two restarts and a replicated batch; distinct = SHA-1 of the case JSON",
     "level_text": "All crash points of each generated history are enumerated when the journal has at most 40 effects (the usual case); longer journals are sampled. Histories themselves are sampled.",
     "level_note": "Assumption from the statement: an effect is durable once its call returns, effects become durable in issue order. Disk = recorded datastore behind cache.Interface and the keystore datastore; real leveldb close/reopen cycles are exercised by C18.",
     "design_ref": "5/C05",
@@ -223,7 +223,7 @@ CHECKS["C18"] = {
     "tests": [T("TestC18", 60, 1500)],
     "level": "exploration",
     "technique": "property-based testing (rapid): generated instance configurations and close/drop moments (idle, mid-write, with a replication's fetches parked by the harness) on real leveldb directories; watchdogged post-close calls, goroutine attribution from runtime stacks, reopen-and-compare",
-    "rule": "rapid draws 1-3 databases (type, 0-4 acknowledged local writes, 0-3 entries authored elsewhere, replication state none / merged / replication in flight with every fetch parked / store reopened and its Load in flight, parked in its first fetch), a closing action on a target database or on the instance (Close once, twice, twice concurrently; Drop; instance Close once, twice, concurrently), whether the parked fetches are released before or after the close call, whether a goroutine keeps writing to the target during the close, and whether, after the close, the author writes two more entries whose heads are then handed to the closed store (Sync after close) with every fetch of the peer parked. The instance under test lives on a real leveldb directory (library defaults) with the simulated transports. Oracle: the closing call and every public operation afterwards on the closed object (write, view, Load, Sync, LoadFromSnapshot, SaveSnapshot, ReplicationStatus, Close; Open/Create/DetermineAddress on a closed instance) returns without panic within a 20 s watchdog; sibling databases of a closed or dropped store stay writable and keep their entries; after the instance is closed no goroutine whose creator frame is in berty.tech/go-orbit-db (and that did not exist before the instance was created) is left after a polling window; a new instance on the same directory reopens every database, Load(-1) shows every acknowledged write (incl. those acknowledged to the concurrent writer), a dropped database is empty and the siblings' directories still exist. a Load that was in flight returns within the watchdog; non-trivial = closed with a replication or a Load parked, or the instance held >= 2 databases; distinct = SHA-1 of the case JSON",
+    "rule": "rapid draws 1-3 databases (type, 0-4 acknowledged local writes, 0-3 entries authored elsewhere, replication state none / merged / replication in flight with every fetch parked / store reopened and its Load in flight, parked in its first fetch), a closing action on a target database or on the instance (Close once, twice, twice concurrently; Drop; instance Close once, twice, concurrently), whether the parked fetches are released before or after the close call, whether the databases are opened through one shared options value, whether a goroutine keeps writing to the target during the close, and whether, after the close, the author writes two more entries whose heads are then handed to the closed store (Sync after close) with every fetch of the peer parked. The instance under test lives on a real leveldb directory (library defaults) with the simulated transports. Oracle: the closing call and every public operation afterwards on the closed object (write, view, Load, Sync, LoadFromSnapshot, SaveSnapshot, ReplicationStatus, Close; Open/Create/DetermineAddress on a closed instance) returns without panic within a 20 s watchdog; sibling databases of a closed or dropped store stay writable and keep their entries; after the instance is closed no goroutine whose creator frame is in berty.tech/go-orbit-db (and that did not exist before the instance was created) is left after a polling window; a new instance on the same directory reopens every database, Load(-1) shows every acknowledged write (incl. those acknowledged to the concurrent writer), a dropped database is empty and the siblings' directories still exist. a Load that was in flight returns within the watchdog; non-trivial = closed with a replication or a Load parked, or the instance held >= 2 databases; distinct = SHA-1 of the case JSON",
     "level_text": "Generated close moments; the only harness-owned in-flight state is the parked block fetch. Leaks are judged after a bounded wait: a goroutine still alive at its end is reported with its stack.",
     "level_note": "The watchdog (20 s) and the leak window (8 s) only bound waits; under the driver a failure must reproduce when the case is re-executed. The bundled pubsub adapters are exercised by C20, not here.",
     "design_ref": "5/C18",
@@ -234,7 +234,7 @@ CHECKS["C20"] = {
     "tests": [T("TestC20CoreAPI", 300, 6000), T("TestC20Direct", 60, 1500), T("TestC20OneOnOne", 4, 40, qshards=4, tshards=8, qtimeout=900), T("TestC20Raw", 40, 800)],
     "level": "exploration",
     "technique": "property-based testing (rapid) of the bundled adapters over scripted lower layers: generated membership snapshot sequences and message streams for pubsubcoreapi, generated send interleavings over a shared scripted pubsub for the pairwise channel, generated payload sizes on the varint/limit boundaries over libp2p mocknet streams for the direct channel; sequence oracles (exact diff, once/intact/attributed)",
-    "rule": "TestC20CoreAPI: pubsubcoreapi over a scripted coreiface.PubSubAPI whose Peers() returns 1-8 drawn snapshots (subsets of 6 peers, 1 ms poll) and whose subscription delivers 0-12 drawn messages from self or others (0-70000 bytes): WatchPeers must report, snapshot by snapshot, exactly one join per appearance and one leave per disappearance and nothing once membership is stable; WatchMessages must deliver every remote message once, in order, byte for byte and no own message; non-trivial = a peer left and rejoined. TestC20OneOnOne: two oneonone channels over one scripted pubsub+swarm with drawn peer ids; both Connect concurrently, must subscribe to the same channel name, then 1-10 sends (0..65536 bytes) in a drawn interleaving are each emitted exactly once at the other end, intact, attributed to the sender, never at the sender; non-trivial = both ends sent. TestC20Direct: directchannel between two mocknet hosts, 1-6 sends in both directions with sizes from {0,1,127,128,16383,16384,65535,4MiB-1,4MiB,4MiB+1}: payloads up to the limit arrive once, intact, attributed to the stream's remote peer; larger ones are not delivered; one send in five is a sender dying mid-frame (the header announces the size, the last 1..size bytes are never written and the stream is closed cleanly): nothing of it may be delivered; a following small payload still arrives in both directions. (Raw hostile frames on the same stream protocol are generated by C12's TestC12Frame.) TestC20Raw: pubsubraw over real go-libp2p-pubsub (floodsub router) on 2-3 mocknet hosts: once every node sees the others on the topic, 1-8 publishes (0..200000 bytes) from drawn nodes; every other node receives each payload exactly once and intact, no node receives its own, and every node saw exactly one join per other peer; non-trivial = two different publishers. distinct = SHA-1 of the case JSON",
+    "rule": "TestC20CoreAPI: pubsubcoreapi over a scripted coreiface.PubSubAPI whose Peers() returns 1-8 drawn snapshots (subsets of 6 peers, 1 ms poll) and whose subscription delivers 0-12 drawn messages from self or others (0-70000 bytes): WatchPeers must report, snapshot by snapshot, exactly one join per appearance and one leave per disappearance and nothing once membership is stable; WatchMessages must deliver every remote message once, in order, byte for byte and no own message; non-trivial = a peer left and rejoined. TestC20OneOnOne: two oneonone channels over one scripted pubsub+swarm with drawn peer ids; both Connect concurrently - in three cases out of four each end issues 2 or 3 overlapping Connect calls for the same peer (several stores of one instance meeting it), which the scripted pubsub lets overlap inside Subscribe - must subscribe to the same channel name, then 1-10 sends (0..65536 bytes) in a drawn interleaving are each emitted exactly once at the other end, intact, attributed to the sender, never at the sender; non-trivial = both ends sent. TestC20Direct: directchannel between two mocknet hosts, 1-6 sends in both directions with sizes from {0,1,127,128,16383,16384,65535,4MiB-1,4MiB,4MiB+1}: payloads up to the limit arrive once, intact, attributed to the stream's remote peer; larger ones are not delivered; one send in five is a sender dying mid-frame (the header announces the size, the last 1..size bytes are never written and the stream is closed cleanly): nothing of it may be delivered; a following small payload still arrives in both directions. (Raw hostile frames on the same stream protocol are generated by C12's TestC12Frame.) TestC20Raw: pubsubraw over real go-libp2p-pubsub (floodsub router) on 2-3 mocknet hosts: once every node sees the others on the topic, 1-8 publishes (0..200000 bytes) from drawn nodes; every other node receives each payload exactly once and intact, no node receives its own, and every node saw exactly one join per other peer; non-trivial = two different publishers. distinct = SHA-1 of the case JSON",
     "level_text": "Generated scripts for the lower layer; the adapters run unmodified.",
     "level_note": "pubsubraw is driven over the floodsub router (immediate forwarding) rather than gossipsub, whose delivery timing is owned by heartbeats; leave events of pubsubraw are not exercised. oneonone.Connect waits at least one second by construction, so its cases are few.",
     "design_ref": "5/C20",
